@@ -869,6 +869,20 @@ func checkValueExpiryTogether(r *Report, rule string) int {
 			}
 			r.Ob(rule, st.Pos(), good, "a write of an item's value in a ttl-taking operation also writes that item's expiry on the same path (an overwrite installs the new deadline)", r.P.FuncName(f), "value-and-expiry-together")
 		})
+		// ... and the expiry written comes from this call's ttl (or is the zero time), never from another
+		// item's Expiration: an entry re-created over an expired one must not inherit the dead deadline
+		writeFromOld := func(pos token.Pos, v ssa.Value, what string) {
+			o := originSummary(v)
+			n++
+			r.Ob(rule, pos, !strings.Contains(o, "StorageItem.Expiration"), "the expiry written by "+what+" is computed from this call's ttl (origin: "+o+"), not copied from a stored item's Expiration", r.P.FuncName(f), "expiry-from-ttl")
+		}
+		Instrs(f, func(in ssa.Instruction) {
+			if st, ok := in.(*ssa.Store); ok {
+				if t, fld, _, ok := FieldOf(st.Addr); ok && t == "StorageItem" && fld == "Expiration" {
+					writeFromOld(st.Pos(), st.Val, "a store to Expiration")
+				}
+			}
+		})
 	}
 	return n
 }
